@@ -5,6 +5,9 @@ import sys
 
 def main(argv):
     sys.setswitchinterval(0.0005)
+    src = os.path.join(os.environ.get("VERIF_REPO", "/repo"), "src")
+    if sys.path[0] != src:
+        sys.path.insert(0, src)    # before anything imports deep (the venv has an editable install of /repo)
     if argv and argv[0] == "--worker":
         from .runner import worker_main
         worker_main(argv[1:])
